@@ -898,7 +898,47 @@ fn q_oracle(ck: &mut Ck, spec: &str) {
                 },
                 None => "e".into(),
             },
-            "tG" | "ke" => outs[i].clone(), // checked by correspondence with the model (C12)
+            "tG" => match m.get("checksum") {
+                // try_get_typed::<Checksum>: the stored text read as entries (algorithm lower-cased, hex as written), refused when an entry has no ':' or an algorithm repeats
+                None => "n".into(),
+                Some(text) => {
+                    let mut e: BTreeMap<String, String> = BTreeMap::new();
+                    let mut ok = true;
+                    for item in text.split(',') {
+                        match item.rsplit_once(':') {
+                            Some((a, hx)) => {
+                                if e.insert(spec_lower(a), hx.to_string()).is_some() {
+                                    ok = false;
+                                }
+                            },
+                            None => ok = false,
+                        }
+                    }
+                    if !ok {
+                        "e".into()
+                    } else {
+                        let mut v: Vec<(String, String)> = e.into_iter().collect();
+                        v.sort();
+                        format!("k:{}", v.iter().map(|(k, v)| format!("{}={}", h(k), h(v))).collect::<Vec<_>>().join(";"))
+                    }
+                },
+            },
+            "ke" => {
+                // QualifierKey == / partial_cmp against an arbitrary string: the stored (lower-case) key against the other side lower-cased per character
+                let s = spec_lower(&uh(f[1]));
+                m.keys()
+                    .map(|k| {
+                        let o = k.chars().cmp(s.chars());
+                        format!("{}{}", if o == std::cmp::Ordering::Equal { "E" } else { "N" }, match o {
+                            std::cmp::Ordering::Less => "lt",
+                            std::cmp::Ordering::Equal => "eq",
+                            std::cmp::Ordering::Greater => "gt",
+                        })
+                    })
+                    .collect::<Vec<_>>()
+                    .join("/")
+                    + "."
+            },
             _ => outs[i].clone(),
         };
         if want != outs[i] {
